@@ -272,6 +272,24 @@ func genModel(p *simkit.Plan, r *simkit.Rand, tier string) {
 			op := simkit.Op{Actor: "user", Kind: "swaplink", S: []string{simkit.Pick(r, []string{"alpha", "beta"}), simkit.Pick(r, []string{"a", "b", "c", "a/b", "a/a"})}}
 			p.Ops = append(p.Ops[:at:at], append([]simkit.Op{op}, p.Ops[at:]...)...)
 		}
+		if r.Chance(1, 3) {
+			// Copy through a swapped parent: both sides hold a/b/d; one side
+			// copies it to a new path, so the other side's staging can source
+			// the content from its own a/b/d - whose parent the user swaps for a
+			// link to the canary (which holds files at the remaining relative
+			// paths) right before or inside that staging.
+			c["mirror_init"] = 1
+			src, dst := "alpha", "beta"
+			if r.Chance(1, 2) && c["mode"] < 2 {
+				src, dst = dst, src
+			}
+			id++
+			pre := []simkit.Op{{Actor: "init", Kind: "put", N: []int64{id, 0}, S: []string{"alpha", "a/b/d"}}}
+			p.Ops = append(pre, p.Ops...)
+			p.Ops = append(p.Ops, simkit.Op{Actor: "client", Kind: "flush", N: []int64{1}},
+				simkit.Op{Actor: "user", Kind: simkit.Pick(r, []string{"cp", "cp", "mv"}), S: []string{src, "a/b/d", simkit.Pick(r, []string{"zcopy", "c/zcopy"})}},
+				simkit.Op{Actor: "user", Kind: "arm", N: []int64{int64(r.Range(1, 6)), id}, S: []string{dst, simkit.Pick(r, []string{"stage", "stage", "transition"}), "swaplink", simkit.Pick(r, []string{"a", "a/b"})}})
+		}
 		if r.Chance(1, 2) {
 			// Sibling burst: both sides share a deep directory; one side gains
 			// several new entries in it at once (so one Transition call walks
@@ -347,6 +365,27 @@ func genModel(p *simkit.Plan, r *simkit.Rand, tier string) {
 		// transition activity.
 		p.Ops = append(p.Ops, simkit.Op{Actor: "user", Kind: "arm", N: []int64{int64(r.Range(1, 8)), id},
 			S: []string{dst, simkit.Pick(r, []string{"transition", "transition", "stage"}), simkit.Pick(r, kinds), path}})
+	}
+	if p.Scenario == "disk-exec" && r.Chance(2, 3) {
+		// The point of C18 on a real endpoint: a file both sides hold is edited on
+		// the side that cannot store executability, and while the storing side is
+		// staging or applying that edit the user flips the file's mode there.
+		nside, pside := "alpha", "beta"
+		if c["nonpreserving"] == 2 {
+			nside, pside = "beta", "alpha"
+		}
+		if !(c["mode"] >= 2 && nside == "beta") { // one-way: edits on beta do not travel
+			path := simkit.Pick(r, []string{"a", "b", "d", "a/b/c"})
+			id++
+			pre := []simkit.Op{{Actor: "init", Kind: "put", N: []int64{id, int64(r.Intn(2))}, S: []string{"alpha", path}}}
+			c["mirror_init"] = 1
+			p.Ops = append(pre, p.Ops...)
+			id++
+			p.Ops = append(p.Ops, simkit.Op{Actor: "client", Kind: "flush", N: []int64{1}},
+				simkit.Op{Actor: "user", Kind: "sleep", N: []int64{2000}},
+				simkit.Op{Actor: "user", Kind: simkit.Pick(r, []string{"edit", "put"}), N: []int64{id, 0}, S: []string{nside, path}},
+				simkit.Op{Actor: "user", Kind: "arm", N: []int64{int64(r.Range(1, 8)), id}, S: []string{pside, simkit.Pick(r, []string{"transition", "stage", "stage"}), "chmod", path}})
+		}
 	}
 	// Fault rules.
 	if onDisk && r.Chance(1, 2) {
